@@ -10,4 +10,30 @@ theorem older_equal_noop (fc : FC) (h : fc.held = false) (t : Root) (j f : Check
   simp [h, hj, hf]
   cases fc; simp_all
 
+theorem inner_refuses_finalized (fc : FC) (f j : Checkpoint) (b : Option (List Nat)) (pa : PA) (u i : Bool)
+    (hje : ¬ j.epoch < f.epoch) (hne : fc.finalized ≠ f)
+    (hsub : fc.pa.inSubtree fc.finalized.root f.root = .ok pa (u, i))
+    (hbad : u = true ∨ i = false ∨ fc.finalized.epoch > f.epoch) :
+    fc.updateJustifiedInner f j b = .err { fc with pa := pa } := by
+  unfold updateJustifiedInner checkCp
+  simp only [hje, if_false, hne, ne_eq, not_false_eq_true, decide_true, if_true, hsub]
+  rcases hbad with h | h | h
+  · simp [h]
+  · cases u <;> simp [h]
+  · cases u <;> cases i <;> simp [h]
+
+theorem inner_refuses_justified (fc : FC) (f j : Checkpoint) (b : Option (List Nat)) (pa : PA) (u i : Bool)
+    (hje : ¬ j.epoch < f.epoch) (heq : fc.finalized = f) (hne : fc.justified ≠ j)
+    (hsub : fc.pa.inSubtree fc.finalized.root j.root = .ok pa (u, i))
+    (hbad : u = true ∨ i = false ∨ fc.finalized.epoch > j.epoch) :
+    fc.updateJustifiedInner f j b = .err { fc with pa := pa } := by
+  unfold updateJustifiedInner checkCp
+  simp only [hje, if_false, heq, ne_eq, not_true_eq_false, decide_false, Bool.false_eq_true]
+  subst heq
+  simp only [hne, ne_eq, not_false_eq_true, decide_true, if_true, hsub]
+  rcases hbad with h | h | h
+  · simp [h]
+  · cases u <;> simp [h]
+  · exact absurd h (by omega)
+
 end Zrnt.ForkChoice
